@@ -102,9 +102,33 @@ def gather (S : Strs) (keys : List Bytes) (rows : List Row) : List (List Row) :=
 def distinctCount (S : Strs) (cells : List Cell) : Nat :=
   ((cells.map (cellKey S)).foldl (fun acc s => if acc.contains s then acc else s :: acc) []).length
 
-/-- What an aggregate yields on a group (int64 sums wrap). `floatAdd` is IEEE addition on bits,
-    supplied by the driver. -/
-def aggregate (S : Strs) (floatAdd : Nat → Nat → Nat) (first : Row) (p : Proj) (grp : List Row) : Except QErr Cell :=
+def inInt64 (n : Int) : Bool := decide (-9223372036854775808 ≤ n ∧ n ≤ 9223372036854775807)
+
+/-- The int64 cells of a column, or the error of the first cell that is none. -/
+def intCells (cells : List Cell) : Except QErr (List Int) :=
+  cells.mapM fun c => match c with
+    | .lit (.int b) => .ok b
+    | _ => .error .sumNotNumber
+
+/-- `sumInt64.Accumulate` over a group: a running sum that leaves int64 is an error (09a61fb; the pinned tree
+    wrapped). -/
+def sumEngine (xs : List Int) : Except QErr Int :=
+  xs.foldlM (fun acc b => if inInt64 (acc + b) then .ok (acc + b) else .error .sumOverflow) 0
+
+/-- The arithmetic sum, as far as it is defined whatever the order of the rows: when the positive (negative)
+    values alone leave int64 an intermediate sum may overflow in some order and not in another. -/
+def sumExact (xs : List Int) : Except QErr Int :=
+  let pos := (xs.filter (· > 0)).foldl (· + ·) 0
+  let neg := (xs.filter (· < 0)).foldl (· + ·) 0
+  let total := xs.foldl (· + ·) 0
+  if inInt64 pos && inInt64 neg then .ok total
+  else if inInt64 total then .error .sumOrderDependent else .error .sumOverflow
+
+/-- What an aggregate yields on a group. `intSum`: how int64 values are summed (the engine's accumulator for
+    the planner model, the arithmetic sum for the reference); `floatAdd` is IEEE addition on bits, supplied by
+    the driver. -/
+def aggregateWith (intSum : List Int → Except QErr Int) (S : Strs) (floatAdd : Nat → Nat → Nat) (first : Row) (p : Proj)
+    (grp : List Row) : Except QErr Cell :=
   let cells := grp.map fun r => (r.get p.binding).getD .null
   match p.op with
   | .none => .ok (cells.headD .null)
@@ -112,25 +136,28 @@ def aggregate (S : Strs) (floatAdd : Nat → Nat → Nat) (first : Row) (p : Pro
   | .sum =>
     -- the accumulator is chosen from the first row of the whole table
     match first.get p.binding with
-    | some (.lit (.int _)) =>
-      cells.foldlM (fun acc c => match acc, c with
-        | .lit (.int a), .lit (.int b) => .ok (.lit (.int (toInt64 (a + b))))
-        | _, _ => .error .sumNotNumber) (.lit (.int 0))
+    | some (.lit (.int _)) => (intCells cells >>= intSum).map fun v => .lit (.int v)
     | some (.lit (.float _)) =>
       cells.foldlM (fun acc c => match acc, c with
         | .lit (.float a), .lit (.float b) => .ok (.lit (.float (floatAdd a b)))
         | _, _ => .error .sumNotNumber) (.lit (.float 0))
     | _ => .error .sumNotNumber
 
+/-- The engine's aggregate. -/
+def aggregate := @aggregateWith sumEngine
+
 /-- `projectAndGroupBy` with GROUP BY: one row per group. -/
-def groupReduce (S : Strs) (floatAdd : Nat → Nat → Nat) (st : Stmt) (rows : List Row) : Except QErr (List Row) :=
+def groupReduceWith (intSum : List Int → Except QErr Int) (S : Strs) (floatAdd : Nat → Nat → Nat) (st : Stmt) (rows : List Row) :
+    Except QErr (List Row) :=
   if rows.isEmpty then .ok [] else
   let keys := dedup ((st.projs.filter fun p => st.groupBy.contains p.out).map (·.binding))
   let sorted := sortRows S (keys.map fun k => (k, false)) rows
   (gather S keys sorted).mapM fun grp =>
     st.projs.foldlM (fun row p => do
-      let c ← aggregate S floatAdd (rows.headD []) p grp
+      let c ← aggregateWith intSum S floatAdd (rows.headD []) p grp
       pure (row.set p.out c)) []
+
+def groupReduce := @groupReduceWith sumEngine
 
 /-! ### HAVING -/
 
